@@ -237,32 +237,39 @@ def main():
             report(f"[{state}] `{sql}` ({cause}) raised {['ProgrammingError', 'DatabaseError'][obs[i][0]]} errno={obs[i][1]} sqlstate={[unstr(x) for x in obs[i][2]]}, "
                    f"expected {['ProgrammingError', 'DatabaseError'][model[i][0]]} {model[i][1]} {[unstr(x) for x in model[i][2]]}",
                    {"state": state, "statement": sql, "cause": cause, "observed": obs[i], "expected": model[i]})
-    # sqlstate machine against a real cursor
+    # sqlstate machine against a real cursor: every way an execute can end - engine success, a statement answered by a nop_regexes pattern,
+    # connector errors of three causes, an exception that is not a connector error (syntax), and finally a closed connection
     fs, conn = setup()
-    cur = conn.cursor()
-    evs = {"ok": ("select 1", []), "UnknownTable": ("select * from nt", [CID["UnknownTable"]]), "UnknownColumn": ("select nocol from t", [CID["UnknownColumn"]]),
-           "UndefinedVariable": ("select $zz", [CID["UndefinedVariable"]])}
+    fs.nop_regexes = [r"^CALL\b"]
+    conn_n = fs.connect(database="db1", schema="s1")
+    evs = {"ok": ("select 1", []), "nop": ("call some_procedure()", []), "UnknownTable": ("select * from nt", [CID["UnknownTable"]]), "UnknownColumn": ("select nocol from t", [CID["UnknownColumn"]]),
+           "UndefinedVariable": ("select $zz", [CID["UndefinedVariable"]]), "syntax": ("select 1 +", [[]])}
     seqs = []
     keys = list(evs)
     for a in keys:
         for b in keys:
             for c in keys:
                 seqs.append([a, b, c])
+    seqs += [[a, b, "closed"] for a in keys for b in keys]
     sq_cases, sq_obs = [], []
     for seq in seqs:
-        cur = conn.cursor()
+        cn = fs.connect(database="db1", schema="s1") if "closed" in seq else conn_n
+        cur = cn.cursor()
         for k in seq:
+            if k == "closed":
+                cn.close()
             try:
-                cur.execute(evs[k][0])
-            except E.ProgrammingError:
+                cur.execute(evs["ok" if k == "closed" else k][0])
+            except Exception:  # noqa: BLE001
                 pass
-        sq_cases.append([evs[k][1] for k in seq])
+        sq_cases.append([[CID["ClosedConnection"]] if k == "closed" else evs[k][1] for k in seq])
         sq_obs.append(core.opt(cur.sqlstate if cur.sqlstate != "n/a" else None))
     dis2 = ck.correspond(sq_cases, sq_obs, label="sqlstate", run="run_c07_sqlstate", kernel_sample=20)
     if dis2:
         i = dis2[0]
-        report(f"cursor.sqlstate after executing {[evs[k][0] for k in seqs[i]]} is {sq_obs[i]}, the life cycle gives {ck.model_obs[i]}",
-               {"statements": [evs[k][0] for k in seqs[i]], "observed": sq_obs[i], "expected": ck.model_obs[i]})
+        texts = ["<conn.close()> select 1" if k == "closed" else evs[k][0] for k in seqs[i]]
+        report(f"cursor.sqlstate after executing {texts} (connection with nop_regexes=['^CALL\\b']) is {sq_obs[i]}, the life cycle gives {ck.model_obs[i]}",
+               {"statements": texts, "observed": sq_obs[i], "expected": ck.model_obs[i]})
     fs.duck_conn.close()
     ck.cov["distinct_nontrivial"] = len({(m[1], m[0]) for m in meta})
     ck.cov["samples"] += [{"state": m[0], "statement": m[1], "cause": m[2], "raised": o} for m, o in list(zip(meta, obs))[:3]]
